@@ -399,7 +399,7 @@ class SV:
         return s
 
     def __abs__(s):
-        e = s.e
+        e = const_fold(s.e)
         if z3.is_rational_value(e):
             return SV(e) if e.numerator_as_long() >= 0 else SV(-e)
         ctx = Ctx.cur
@@ -410,8 +410,8 @@ class SV:
                 return s
             if valid(e <= 0, ass, 1500):
                 return SV(-e)
-            if z3.is_const(e) and e.decl().kind() == z3.Z3_OP_UNINTERPRETED:
-                # plain input variable of undecided sign: fork (keeps terms free of If-atoms)
+            if not getattr(ctx, "straight", False):
+                # undecided sign: fork (keeps terms free of If-atoms, which the normaliser cannot look into)
                 return s if ctx.branch(e >= 0) else SV(-e)
         return SV(z3.If(e >= 0, e, -e))
 
@@ -442,36 +442,31 @@ class SV:
     def __rpow__(s, b):
         return SV(uf("POW", 2)(rv(b), s.e))
 
-    # comparisons
-    def __lt__(s, o):
+    # comparisons (both sides are first brought to a constant when their normal form is one, so that
+    # e.g. the residual of an exactly solved linear system compares as the literal 0)
+    def _cmp(s, o, op):
         if not SV._ok(o):
             return NotImplemented
-        return SB(s.e < SV.lift(o).e)
+        a, b = const_fold(s.e), const_fold(SV.lift(o).e)
+        return SB(op(a, b))
+
+    def __lt__(s, o):
+        return s._cmp(o, lambda a, b: a < b)
 
     def __le__(s, o):
-        if not SV._ok(o):
-            return NotImplemented
-        return SB(s.e <= SV.lift(o).e)
+        return s._cmp(o, lambda a, b: a <= b)
 
     def __gt__(s, o):
-        if not SV._ok(o):
-            return NotImplemented
-        return SB(s.e > SV.lift(o).e)
+        return s._cmp(o, lambda a, b: a > b)
 
     def __ge__(s, o):
-        if not SV._ok(o):
-            return NotImplemented
-        return SB(s.e >= SV.lift(o).e)
+        return s._cmp(o, lambda a, b: a >= b)
 
     def __eq__(s, o):
-        if not SV._ok(o):
-            return NotImplemented
-        return SB(s.e == SV.lift(o).e)
+        return s._cmp(o, lambda a, b: a == b)
 
     def __ne__(s, o):
-        if not SV._ok(o):
-            return NotImplemented
-        return SB(s.e != SV.lift(o).e)
+        return s._cmp(o, lambda a, b: a != b)
 
     def __hash__(s):
         return id(s)
@@ -524,11 +519,17 @@ class SV:
         return SV(r)
 
     def sin(s):
+        z = z3.simplify(s.e)
+        if z3.is_rational_value(z) and z.numerator_as_long() == 0:
+            return SV(0)
         a, b = uf("SIN")(s.e), uf("COS")(s.e)
         cur().add_side(a * a + b * b == 1)
         return SV(a)
 
     def cos(s):
+        z = z3.simplify(s.e)
+        if z3.is_rational_value(z) and z.numerator_as_long() == 0:
+            return SV(1)
         a, b = uf("SIN")(s.e), uf("COS")(s.e)
         cur().add_side(a * a + b * b == 1)
         return SV(b)
@@ -573,6 +574,34 @@ class SV:
 
     def sign(s):
         return SV(z3.If(s.e > 0, rv(1), z3.If(s.e < 0, rv(-1), rv(0))))
+
+
+def const_fold(e):
+    """If the normal form of e (under the square/definition rules of the current path) is a rational
+    constant, return that constant; otherwise e unchanged."""
+    if z3.is_rational_value(e) or (z3.is_const(e) and e.decl().kind() == z3.Z3_OP_UNINTERPRETED):
+        return e
+    ctx = Ctx.cur
+    if ctx is None:
+        return e
+    memo = ctx.data.setdefault("const_fold", {})
+    key = (e.get_id(), len(ctx.side), len(ctx.extra))
+    if key in memo:
+        return memo[key]
+    out = e
+    try:
+        from .canon import Canon
+        cn = Canon()
+        cn.learn_rules(ctx.side + ctx.extra)
+        r = cn.reduce_rf(cn.rf(e)).simplify_const_den()
+        if r.n.is_zero():
+            out = z3.RealVal(0)
+        elif r.n.is_const() and r.d.is_const():
+            out = z3.RealVal(str(r.n.const_value() / r.d.const_value()))
+    except (ValueError, ZeroDivisionError, RecursionError):
+        pass
+    memo[key] = out
+    return out
 
 
 def _signed_abs(t, ctx):
@@ -887,3 +916,44 @@ def pairs_of(A, B):
     if A.shape != B.shape:
         raise ValueError(f"shape mismatch {A.shape} vs {B.shape}")
     return list(zip(A.ravel(), B.ravel()))
+
+
+def trig_axioms(terms):
+    """Instances of the angle-addition and parity formulas for the SIN/COS arguments occurring in
+    ``terms`` (z3 terms): for arguments x, y, z with z == x + y (normal forms) the addition formulas, for
+    z == -x the parity formulas.  True facts about sin/cos, instantiated only where they are needed."""
+    from .canon import Canon
+    args = {}
+    seen = set()
+    stack = list(terms)
+    while stack:
+        t = stack.pop()
+        i = t.get_id()
+        if i in seen:
+            continue
+        seen.add(i)
+        if z3.is_app(t):
+            if t.decl().kind() == z3.Z3_OP_UNINTERPRETED and t.decl().name() in ("SIN", "COS"):
+                a = t.children()[0]
+                args[a.get_id()] = a
+            stack.extend(t.children())
+    cn = Canon()
+    al = list(args.values())
+    keys = [cn.rf(a) for a in al]
+    S, C = uf("SIN"), uf("COS")
+    out = []
+    for i, x in enumerate(al):
+        for j, y in enumerate(al):
+            if j < i:
+                continue
+            sk = (keys[i] + keys[j]).simplify_const_den()
+            for k, z in enumerate(al):
+                d = (keys[k] - sk)
+                if d.n.is_zero():
+                    out.append(S(z) == S(x) * C(y) + C(x) * S(y))
+                    out.append(C(z) == C(x) * C(y) - S(x) * S(y))
+        for k, z in enumerate(al):
+            if k != i and (keys[k] + keys[i]).n.is_zero():
+                out.append(S(z) == -S(x))
+                out.append(C(z) == C(x))
+    return out
